@@ -49,7 +49,7 @@ func runC15(cfg *vh.Config) error {
 	var cases []*c15case
 	invalid := 0
 	for len(cases) < n && invalid < 10*n+100 {
-		prof := descgen.Profile{MaxFiles: 3, Supported: true, Comments: r.Chance(40), CrossPkg: len(cases)%3 == 1}
+		prof := descgen.Profile{MaxFiles: 3, Supported: true, Comments: r.Chance(40), CrossPkg: len(cases)%3 == 1, OddPkg: len(cases)%13 == 4}
 		if len(cases)%8 == 7 {
 			prof.Supported, prof.Wild = false, 5
 		}
@@ -147,7 +147,7 @@ func runC15(cfg *vh.Config) error {
 	res.Distribution["worker-restarts"] = pool.Restarts
 
 	cf := &vh.CasesFile{
-		Header: "From Coq Require Import String List NArith ZArith.\nFrom J5V.model Require Import ReflectDesc ReflectSchema ExportCorr.",
+		Header: "From Coq Require Import String List NArith ZArith.\nFrom J5V.model Require Import ReflectDesc ReflectSchema ExportForm ExportApi ExportCorr.",
 		Type:   "c15case",
 		Check:  "c15_check",
 	}
@@ -188,7 +188,7 @@ func runC15(cfg *vh.Config) error {
 				}
 				if o.Class == "ok" {
 					first = o.Term
-					if o.Term != "[]" {
+					if o.Count > 0 {
 						distinct.Add(c.term)
 					}
 					if o.Extra != "" {
@@ -200,6 +200,11 @@ func runC15(cfg *vh.Config) error {
 					fail(fmt.Sprintf("C15 SchemaSetFromFiles / ToJ5Root -> %s in %s: %s", o.Class, o.Site, normMsg(o.Msg)), "exporting the reflected schemas", o.Msg)
 				}
 				for _, v := range o.Viol {
+					if rest, ok := strings.CutPrefix(v, "export-coverage: "); ok {
+						what, _, _ := strings.Cut(rest, " | ")
+						fail("C15 the export carries a field the model of the source form does not cover: "+what, "nothing is lost in the round trip (every exported field must be part of the checked form)", v)
+						continue
+					}
 					fail("C15 the export of a reflected schema differs from the schema object (member lost or changed by ToJ5Root / ToJ5Field)", "no rule, enum option info, entity marker, any-membership or list rule is lost", v)
 				}
 			case "import":
@@ -229,7 +234,7 @@ func runC15(cfg *vh.Config) error {
 				}
 			}
 		}
-		cf.Terms = append(cf.Terms, fmt.Sprintf("C15Case\n  %s\n  %s\n  %d %s\n  %d %s", c.term, listStr(c.req.GenPaths), ce, first, ci, second))
+		cf.Terms = append(cf.Terms, fmt.Sprintf("C15Case\n  %s\n  %s\n  %d %s\n  %d %s", c.term, listStr(c.req.Packages), ce, first, ci, second))
 		res.Cases = append(res.Cases, vh.CaseRec{Case: c.id, Stream: "roundtrip", Input: input, Impl: summarize(obs[c.id])})
 		if c.id < 3 {
 			res.Sample(map[string]any{"files": c.c.GenPaths(), "features": c.c.Tags, "observed": summarize(obs[c.id])}, 3)
